@@ -354,10 +354,10 @@ package bloomsearch
 //@ pred subFT(e *bloomEntrySets, f *bloomEntrySets) = forall k str :: has(old(e.fieldTokens), k) ==> has(f.fieldTokens, k)
 //@ pred oldSets(e *bloomEntrySets) = e != nil && setsOK(e) && ref(e) >= old($alloc) && ref(e.fields) >= old($alloc) && ref(e.tokens) >= old($alloc) && ref(e.fieldTokens) >= old($alloc)
 //@ pred sameEntries(pb *partitionBuffer) = pb != nil && pb.entries == old(pb.entries) && pb.entries.fields == old(pb.entries.fields) && pb.entries.tokens == old(pb.entries.tokens) && pb.entries.fieldTokens == old(pb.entries.fieldTokens)
-//@ requires [C18] forall key str :: has(flushReq.partitionBuffers, key) ==> get(flushReq.partitionBuffers, key) != nil && oldSets(get(flushReq.partitionBuffers, key).entries)
-//@ loop 0 invariant [C18] freshSets(fileEntries)
+//@ requires [C17,C18] forall key str :: has(flushReq.partitionBuffers, key) ==> get(flushReq.partitionBuffers, key) != nil && oldSets(get(flushReq.partitionBuffers, key).entries)
+//@ loop 0 invariant [C17,C18] freshSets(fileEntries)
 //@ loop 0 invariant [C18] forall key str :: $visited[key] ==> has(flushReq.partitionBuffers, key)
-//@ loop 0 invariant [C18] forall key str :: has(flushReq.partitionBuffers, key) ==> sameEntries(get(flushReq.partitionBuffers, key)) && oldSets(get(flushReq.partitionBuffers, key).entries)
+//@ loop 0 invariant [C17,C18] forall key str :: has(flushReq.partitionBuffers, key) ==> sameEntries(get(flushReq.partitionBuffers, key)) && oldSets(get(flushReq.partitionBuffers, key).entries)
 //@ loop 0 invariant [C18] forall key str :: $visited[key] ==> subF(old(get(flushReq.partitionBuffers, key).entries), fileEntries)
 //@ loop 0 invariant [C18] forall key str :: $visited[key] ==> subT(old(get(flushReq.partitionBuffers, key).entries), fileEntries)
 //@ loop 0 invariant [C18] forall key str :: $visited[key] ==> subFT(old(get(flushReq.partitionBuffers, key).entries), fileEntries)
@@ -1836,14 +1836,14 @@ package bloomsearch
 // block-level sets (file filters contain every entry of every block).
 //@ ghostvar unions int    // unionInto calls (block-level entry sets folded into file-level sets)
 //@ func (*bloomEntrySets).unionInto
-//@ props C18
+//@ props C17 C18
 //@ entry ghost.unions = ghost.unions + 1
-//@ requires [C18] s != nil && dst != nil && s != dst
-//@ requires [C18] s.fields != nil && s.tokens != nil && s.fieldTokens != nil && dst.fields != nil && dst.tokens != nil && dst.fieldTokens != nil
-//@ requires [C18] s.fields != dst.fields && s.fields != dst.tokens && s.fields != dst.fieldTokens
-//@ requires [C18] s.tokens != dst.fields && s.tokens != dst.tokens && s.tokens != dst.fieldTokens
-//@ requires [C18] s.fieldTokens != dst.fields && s.fieldTokens != dst.tokens && s.fieldTokens != dst.fieldTokens
-//@ requires [C18] dst.fields != dst.tokens && dst.fields != dst.fieldTokens && dst.tokens != dst.fieldTokens
+//@ requires [C17,C18] s != nil && dst != nil && s != dst
+//@ requires [C17,C18] s.fields != nil && s.tokens != nil && s.fieldTokens != nil && dst.fields != nil && dst.tokens != nil && dst.fieldTokens != nil
+//@ requires [C17,C18] s.fields != dst.fields && s.fields != dst.tokens && s.fields != dst.fieldTokens
+//@ requires [C17,C18] s.tokens != dst.fields && s.tokens != dst.tokens && s.tokens != dst.fieldTokens
+//@ requires [C17,C18] s.fieldTokens != dst.fields && s.fieldTokens != dst.tokens && s.fieldTokens != dst.fieldTokens
+//@ requires [C17,C18] dst.fields != dst.tokens && dst.fields != dst.fieldTokens && dst.tokens != dst.fieldTokens
 //@ modifies map(dst.fields), map(dst.tokens), map(dst.fieldTokens), ghost.unions
 //@ ensures ghost.unions == old(ghost.unions) + 1
 //@ loop 0 invariant mapsframe(dst.fields, dst.tokens, dst.fieldTokens)
